@@ -446,7 +446,7 @@ def cases(tier, seed):
                             for desc in (True, False):
                                 out.append(("SelectMomentum", (h, c), [("SelectMomentum", (n, lb, lag, desc, False))], pr))
     # signals
-    for kind in ("mixed", "none", "all", "sparse"):
+    for kind in ("mixed", "none", "all", "sparse", "shifted", "holes"):
         for h in hists_q:
             for c in cells[::7]:
                 for f in flags:
@@ -498,7 +498,16 @@ def build_env(args):
         stat = sparse_stat() if extra["stat"] == "sparse" else stat_table(extra["stat"])
     signal = None
     if "signal" in extra:
-        signal = signal_table("mixed").iloc[[0, 2, 4]] if extra["signal"] == "sparse" else signal_table(extra["signal"])
+        if extra["signal"] == "sparse":
+            signal = signal_table("mixed").iloc[[0, 2, 4]]
+        elif extra["signal"] == "shifted":
+            signal = signal_table("mixed").shift(3)  # object dtype: NaN, then booleans
+        elif extra["signal"] == "holes":
+            signal = signal_table("all").astype(object)
+            signal.iloc[3, 0] = NAN
+            signal.iloc[3, 2] = NAN
+        else:
+            signal = signal_table(extra["signal"])
     otr = None
     if extra.get("otr"):
         otr = pd.DataFrame({"x": ["a", "a", "b", "b", "c"], "y": ["c", "c", "c", "a", "a"]}, index=pd.DatetimeIndex(DATES))
